@@ -105,3 +105,22 @@ def modpath(rel, mod):
     parts = parts[:-3] if parts.endswith(".rs") else parts
     comps = [c for c in parts.split("/") if c not in ("lib", "mod")]
     return "::".join(comps + [mod])
+
+
+def mir_dump(wsdir, root, out, env=None):
+    """`cargo +nightly rustc -Zunpretty=mir` of steel-core in the scratch copy; retried once when the dump is
+    missing or implausibly small (a compiler process killed under memory pressure leaves an empty file)."""
+    env = dict(env or os.environ, CARGO_NET_OFFLINE="true")
+    env.pop("RUSTFLAGS", None)
+    err = os.path.join(root, "mir.err")
+    for attempt in range(2):
+        # without a changed source file cargo does not re-run rustc and the second dump would be empty
+        lib = os.path.join(wsdir, "crates", "steel-core", "src", "lib.rs")
+        os.utime(lib, None)
+        with open(out, "w") as f, open(err, "w") as e:
+            subprocess.run(["cargo", "+nightly", "rustc", "--offline", "-p", "steel-core", "--lib", "--no-default-features",
+                            "--features", FEATURES, "--target-dir", os.path.join(root, "tmir"), "--",
+                            "-Zunpretty=mir", "-C", "debug-assertions=off"], cwd=wsdir, stdout=f, stderr=e, env=env)
+        if os.path.getsize(out) > 5_000_000:
+            return env
+    raise RuntimeError("MIR dump failed: %s" % open(err, errors="replace").read()[-400:])
